@@ -65,7 +65,12 @@ def run(ck, tier):
         ct = os.path.join(work, "conc.ndjson")
         n = 3000 if thorough else 400
         p = vlib.harness(["morass", "conctrace", "-n", n, "-seed", ck.seed, "-out", ct])
-        vlib.log("  [conctrace] %s" % p.stdout.strip())
+        vlib.log("  [conctrace] %s" % p.stdout.strip().splitlines()[-1])
+        st = vlib.take_stall(ct)
+        if st:
+            ck.violation("a concurrent-mode sorter stopped making progress for %d s (deadlock): %s" % (st["seconds"], st["after"]),
+                         {"kind": "morass-stall", "after": st["after"], "stacks": st["stacks"][-6000:],
+                          "cmd": "vharness morass conctrace -n %d -seed %d" % (n, ck.seed)})
         v, r = vlib.validate("Morass", "MorassConcTrace", "MorassConcTrace.cfg", ct)
         ck.mc("trace:un-gated-hooks", r, "%d events" % v["events"])
         cevs = vlib.read_ndjson(ct)
@@ -86,6 +91,11 @@ def run(ck, tier):
         p = vlib.harness(["morass", "random", "-n", n, "-big", "-conc", "-seed", ck.seed, "-out", tr], race=True,
                          ok_codes=(0, 66), timeout=3000)
         vlib.log("  [race-run] %s" % p.stdout.strip().splitlines()[-1])
+        st = vlib.take_stall(tr)
+        if st:
+            ck.violation("a concurrent-mode sorter stopped making progress for %d s (deadlock): %s" % (st["seconds"], st["after"]),
+                         {"kind": "morass-stall", "after": st["after"], "stacks": st["stacks"][-6000:],
+                          "cmd": "vharness-race morass random -n %d -big -conc -seed %d" % (n, ck.seed)})
         if p.returncode == 66 or "WARNING: DATA RACE" in p.stdout:
             ck.violation("data race reported by the Go race detector in concurrent-mode morass",
                          {"kind": "race-report", "report": p.stdout[:6000],
